@@ -670,6 +670,16 @@ namespace awkward {
   template <typename T>
   const SliceItemPtr
   SliceJaggedOf<T>::carry(const Index64& carry) const {
+    // the kernels below read offsets_[c] and offsets_[c + 1] without a length
+    for (int64_t i = 0;  i < carry.length();  i++) {
+      int64_t c = carry.getitem_at_nowrap(i);
+      if (c < 0  ||  c >= length()) {
+        throw std::invalid_argument(
+          std::string("jagged slice item of length ") + std::to_string(length())
+          + std::string(" is too short for the array it is applied to")
+          + FILENAME(__LINE__));
+      }
+    }
     IndexOf<T> nextoffsets(carry.length() + 1);
 
     struct Error err1 = kernel::carry_SliceJagged_offsets<T>(
